@@ -63,13 +63,18 @@ def gen_prov(D, max_tasks=8):
             t['input'] = {'output': {
                 'x': '<% $.get(x, none) %>', 'y': '<% $.get(y, none) %>',
                 'd.a': '<% $.get(d, dict()).get(a, none) %>',
-                'd.b': '<% $.get(d, dict()).get(b, none) %>'}}
+                'd.b': '<% $.get(d, dict()).get(b, none) %>',
+                'g': '<% global(g) %>', 'h': '<% global(h) %>',
+                '$g': '<% $.get(g, none) %>', '$h': '<% $.get(h, none) %>'}}
         else:
             t['input'] = {'output': {
                 'x': "{{ _.get('x', 'none') }}",
                 'y': "{{ _.get('y', 'none') }}",
                 'd.a': "{{ _.get('d', {}).get('a', 'none') }}",
-                'd.b': "{{ _.get('d', {}).get('b', 'none') }}"}}
+                'd.b': "{{ _.get('d', {}).get('b', 'none') }}",
+                'g': "{{ global('g') }}", 'h': "{{ global('h') }}",
+                '$g': "{{ _.get('g', 'none') }}",
+                '$h': "{{ _.get('h', 'none') }}"}}
         for clause in ('publish', 'publish-on-error'):
             pub = {}
             if prog.get('diamond'):
@@ -93,17 +98,80 @@ def gen_prov(D, max_tasks=8):
             if clause == 'publish-on-error' and not D.bool(0.4):
                 pub = {}
             t[clause] = pub
+    gen_tpublish(D, prog)
     if lang == 'yaql':
         prog['output_raw'] = {
             'x': '<% $.get(x, none) %>', 'y': '<% $.get(y, none) %>',
             'd.a': '<% $.get(d, dict()).get(a, none) %>',
-            'd.b': '<% $.get(d, dict()).get(b, none) %>'}
+            'd.b': '<% $.get(d, dict()).get(b, none) %>',
+            'g': '<% global(g) %>', 'h': '<% global(h) %>'}
     else:
         prog['output_raw'] = {
             'x': "{{ _.get('x', 'none') }}", 'y': "{{ _.get('y', 'none') }}",
             'd.a': "{{ _.get('d', {}).get('a', 'none') }}",
-            'd.b': "{{ _.get('d', {}).get('b', 'none') }}"}
+            'd.b': "{{ _.get('d', {}).get('b', 'none') }}",
+            'g': "{{ global('g') }}", 'h': "{{ global('h') }}"}
     return prog, outc
+
+
+GLOBALS = ('g', 'h')
+_CL = {'on-success': 'S', 'on-error': 'E', 'on-complete': 'C'}
+
+
+def gen_tpublish(D, prog):
+    """Transition-level publish (branch and global scope) at drawn tasks.
+
+    wf_lang_v2.rst: what on-complete publishes is merged with what on-success
+    / on-error publishes (depending on the task state) and the latter take
+    precedence.  The relation between the task-level `publish` and a
+    transition-level one is not documented, so a variable is never published
+    at both levels by one task for one state."""
+    for nm in prog['order']:
+        t = prog['tasks'][nm]
+        if not D.bool(0.45):
+            continue
+        tp = {}
+        task_level = {'on-success': set(t.get('publish') or {}),
+                      'on-error': set(t.get('publish-on-error') or {})}
+        task_level['on-complete'] = task_level['on-success'] | \
+            task_level['on-error']
+        for clause in ('on-success', 'on-error', 'on-complete'):
+            if not D.bool(0.5):
+                continue
+            spec = {}
+            br = {}
+            for v in ('x', 'y'):
+                if v not in task_level[clause] and D.bool(0.4):
+                    br[v] = 'tok:%s:%s:%s' % (nm, _CL[clause], v)
+            gl = {}
+            for v in GLOBALS:
+                if D.bool(0.35):
+                    gl[v] = 'tok:%s:%s:%s' % (nm, _CL[clause], v)
+            if br:
+                spec['branch'] = br
+            if gl:
+                spec['global'] = gl
+            if spec:
+                tp[clause] = spec
+        if tp:
+            t['tpublish'] = tp
+
+
+def ref_published(t, state):
+    """(branch dict, global dict) a task publishes when it ends in `state`,
+    from the documentation: task-level publish(-on-error) plus on-complete
+    publish overridden by on-success / on-error publish."""
+    br, gl = {}, {}
+    tp = t.get('tpublish') or {}
+    spec = 'on-success' if state == 'SUCCESS' else 'on-error'
+    for clause in ('on-complete', spec):
+        br.update((tp.get(clause) or {}).get('branch') or {})
+        gl.update((tp.get(clause) or {}).get('global') or {})
+    lvl = t.get('publish') if state == 'SUCCESS' else \
+        t.get('publish-on-error')
+    for k, v in (lvl or {}).items():
+        br[k] = v     # disjoint from the transition-level names by design
+    return br, gl
 
 
 def gen_diamond(D, G):
@@ -167,6 +235,7 @@ def check_prov(case, stats=None):
     for t in bare['tasks'].values():
         t['publish'] = {}
         t['publish-on-error'] = {}
+        t.pop('tpublish', None)
     bare.pop('output_raw', None)
     m = wfsem.model_for(bare, {}, case['outcomes'])
     try:
@@ -246,6 +315,74 @@ def check_prov(case, stats=None):
                     'allowed': sorted(map(str, allowed)),
                     'publishers': sorted(tasks[p]['name'] for p in pubs),
                     'maximal': sorted(tasks[p]['name'] for p in maximal)}})
+    # ---- transition-level publish: documented merge, global scope
+    gpub = {}      # task id -> {global var: token} by the reference
+    forced = sim.W.forced_fail > 0
+    if forced and stats is not None:
+        # a task failed by force (failing guard expression...) ends ERROR
+        # after it had published for SUCCESS: outside the documented merge
+        stats.counters['transition_publish_skipped_forced_failure'] += 1
+    for tid, t in tasks.items():
+        if t['state'] not in ('SUCCESS', 'ERROR') or forced:
+            continue
+        pt = prog['tasks'].get(t['name']) or {}
+        br, gl = ref_published(pt, t['state'])
+        if gl:
+            gpub[tid] = gl
+        if pt.get('tpublish'):
+            if stats is not None:
+                stats.tags['transition_publish_task'] += 1
+            if (t['published'] or {}) != br:
+                viol.append({'kind': 'published-differs-from-documented-'
+                             'merge', 'detail': {
+                                 'task': t['name'], 'state': t['state'],
+                                 'leaf': 'branch',
+                                 'published': t['published'],
+                                 'documented': br,
+                                 'tpublish': pt.get('tpublish')}})
+
+    def global_allowed(tid, var, anc):
+        pubs = [p for p in gpub if var in gpub[p]]
+        apubs = [p for p in pubs if p in anc]
+        maximal = [p for p in apubs
+                   if not any(p in ancestors(q) for q in apubs if q != p)]
+        allowed = {gpub[p][var] for p in maximal} if maximal else {None}
+        conc = [p for p in pubs if p not in anc and p != tid
+                and (tid is None or tid not in ancestors(p))]
+        allowed |= {gpub[p][var] for p in conc}
+        return allowed, apubs, conc
+
+    for tid, t in tasks.items():
+        if tid not in visible or forced:
+            continue
+        anc = ancestors(tid)
+        for var in GLOBALS:
+            allowed, apubs, conc = global_allowed(tid, var, anc)
+            for key, none in ((var, (None,)), ('$' + var, (None, 'none'))):
+                seen = visible[tid].get(key)
+                ok = seen in allowed or (None in allowed and seen in none)
+                if apubs and not conc:
+                    nontriv = True
+                if not ok:
+                    viol.append({'kind': 'global-variable-wrong-or-lost',
+                                 'detail': {
+                                     'task': t['name'], 'leaf': key,
+                                     'seen': seen,
+                                     'allowed': sorted(map(str, allowed)),
+                                     'publishers': sorted(
+                                         tasks[p]['name'] for p in gpub
+                                         if var in gpub[p])}})
+    if root['state'] == 'SUCCESS' and not forced:
+        for var in GLOBALS:
+            pubs = [p for p in gpub if var in gpub[p]]
+            maximal = [p for p in pubs
+                       if not any(p in ancestors(q) for q in pubs if q != p)]
+            allowed = {gpub[p][var] for p in maximal} if maximal else {None}
+            seen = (root['output'] or {}).get(var)
+            if seen not in allowed:
+                viol.append({'kind': 'workflow-output-global-wrong-or-lost',
+                             'detail': {'leaf': var, 'seen': seen,
+                                        'allowed': sorted(map(str, allowed))}})
     # workflow output (SUCCESS only: output is evaluated)
     if root['state'] == 'SUCCESS':
         ends = [tid for tid, t in tasks.items()
